@@ -77,6 +77,10 @@ func TestC01(t *testing.T) {
 				op0 := byte(d.U32("op0-pre"))
 				c.Init = rig.GenArch(d, op0, false)
 				syn.ForceFirst(op0)
+				c.Fork = d.Intn("fork", 100) == 0
+				if c.Fork {
+					ev.Class("run-on-CPUs-created-with-InitFrom")
+				}
 				var st lockstepStats
 				err := rig.Safe(func() error { return runLockstep(&c, syn, []rig.CPU{pri, alt}, &st) })
 				if err != nil {
@@ -139,7 +143,6 @@ func TestC01(t *testing.T) {
 			ev.Assumption("the reference model (harness/wdc, written from the WDC datasheet and 'Programming the 65816') is correct; V after decimal arithmetic, A/N/Z/C after decimal arithmetic on non-BCD operands and results that depend on the bus-cycle order inside one instruction are not judged")
 		})
 }
-
 
 // c01AluSweep enumerates, for the 8-bit immediate / accumulator forms of the ALU instructions, every accumulator
 // value x every operand value x carry in x decimal flag (decimal only for ADC/SBC and only on BCD operands in
